@@ -9,8 +9,7 @@ Driver glue for the adapters:
 reply `(modelTrace specOnModel specOnImpl)`.
 `(ospielx kind script calls implTrace)`       calls: `(r)` | `(s (acts…))` | `(p idx)` (`current_player = idx`);
      trace item as for `ospiel`, or `(set ok)` | `(set rejected)` | `(set crash)` for a setter call;
-     reply `(modelTrace weakOnModel strictOnImpl weakOnImpl)`: `specC15Xw` (what is proved) on the model's
-     trace, `specC15X` (the property) and `specC15Xw` on the implementation's.
+     reply `(modelTrace specOnModel specOnImpl)` with `specC15X`.
 -/
 namespace Abmarl
 namespace AdaptersDriver
@@ -152,15 +151,15 @@ def handleOSX (args : List Val) : Option Val := do
     let calls ← (← calls.list?).mapM osIn?
     let S := stubSim sc
     let tr := osRunX S k { m := mgrInit ({} : StubSt) false [] } calls
+    let spec := fun (t : List (OSOut Int (List Int) (List Int))) => specC15X k sc.n S.learning calls t
     let implV ← impl.list?
-    let judged : Val × Val :=
-      if implV.isEmpty && !calls.isEmpty then (.int (-1), .int (-1))
+    let is : Val :=
+      if implV.isEmpty && !calls.isEmpty then .int (-1)
       else match implV.mapM oso? with
-        | some it => (b2i (specC15X k sc.n S.learning calls it), b2i (specC15Xw k sc.n S.learning calls it))
-        | none => (.int (-2), .int (-2))
-    pure (.list [.list (tr.map encOSOut), b2i (specC15Xw k sc.n S.learning calls tr), judged.1, judged.2])
+        | some it => b2i (spec it)
+        | none => .int (-2)
+    pure (.list [.list (tr.map encOSOut), b2i (spec tr), is])
   | _ => none
-
 
 end AdaptersDriver
 end Abmarl
